@@ -84,6 +84,7 @@ func genCfgFor(r *rand.Rand, i int, o *campOpts) *cons.GenCfg {
 		cfg.MinParents, cfg.MaxParents, cfg.PartProb = 1, 3, 0
 		cfg.EventsPer = minI(o.maxEvents, 40*n)
 	}
+	cfg.LowEntropyIDs = i%8 == 3 // event IDs that agree in epoch, Lamport and the first 8 of their 24 bytes
 	if i%8 == 6 && n >= 4 {
 		// polarised regime: long leaky partitions into two groups - frames keep advancing on bare quorums (own group plus a
 		// few cross links) while the two groups see different first-round roots, so later roots count split votes over
